@@ -39,7 +39,7 @@ def budget(tier: str) -> Dict[str, Any]:
 
 @st.composite
 def strategy_case(draw: Any) -> Dict[str, Any]:
-    case = draw(filegen.file_case(countries=cli.COUNTRIES, hist=HIST, flavours=FLAVOURS, single_entry_schedules=True, force_all_types=draw(st.booleans())))
+    case = draw(filegen.file_case(countries=cli.COUNTRIES, hist=HIST, flavours=FLAVOURS, single_entry_schedules=True, force_all_types=draw(st.booleans()), numeric_uids=True))
     if case["country"] == "jp" and draw(st.booleans()):
         case["lang"] = None if draw(st.booleans()) else case["lang"]  # also the country's default language
     if draw(st.integers(0, 3)) == 0:
